@@ -17,7 +17,10 @@ Inductive ty :=
 | TSet                      (* map[string]struct{} *)
 | TMss                      (* map[string][]string *)
 | TMap (k v : ty)
-| TOther.                   (* struct, pointer, interface, uintptr, ... *)
+| TOther                    (* struct, pointer, interface, uintptr, ... *)
+| TNamed (t : ty).          (* a user-defined named type (type Label string, type Names []string,
+                               type Env map[string]string ...) whose underlying type is t;
+                               one level: t is not itself TNamed *)
 
 Inductive pval :=
 | VStr (s : str) | VBool (b : bool) | VInt (z : Z)
@@ -45,8 +48,17 @@ Definition scalar_kind (t : ty) : bool :=
   match t with
   | TStr | TBool | TInt _ | TDur => true
   | TUint w => match w with UPtr => false | _ => true end
+  | TNamed u => match u with
+                | TStr | TBool | TInt _ | TDur => true
+                | TUint w => match w with UPtr => false | _ => true end
+                | _ => false
+                end
   | _ => false
   end.
+
+(* reflect.Kind() == String *)
+Definition string_kind (t : ty) : bool :=
+  match t with TStr | TNamed TStr => true | _ => false end.
 
 (* equality of scalar values, for the duplicate-key test m.MapIndex(key) *)
 Definition scalar_eqb (a b : pval) : bool :=
@@ -72,7 +84,7 @@ Section Dispatch.
   Variable fixed_trim : bool.
   Definition p_elem_panic : N := 1.
   Definition tok (e : ty) (x : str) : str :=
-    if fixed_trim then match e with TStr => x | _ => trim_space x end else x.
+    if fixed_trim then (if string_kind e then x else trim_space x) else x.
 
   Definition parse_scalar (t : ty) (s : str) : outcome pval :=
     match t with
@@ -84,6 +96,20 @@ Section Dispatch.
                  | UPtr => Err e_kind
                  | _ => omap (fun n => VInt (Z.of_N n)) (parse_number_uint w s)
                  end
+    | TNamed u =>
+        (* parse.String looks at the kind only; the one exact-type test among the scalars is
+           numberType == durationType, so a named duration type is parsed as a plain int64 *)
+        match u with
+        | TStr => Ok (VStr s)
+        | TBool => omap VBool (parse_bool s)
+        | TInt w => omap VInt (parse_number_int w s)
+        | TDur => omap VInt (parse_number_int I64 s)
+        | TUint w => match w with
+                     | UPtr => Err e_kind
+                     | _ => omap (fun n => VInt (Z.of_N n)) (parse_number_uint w s)
+                     end
+        | _ => Err e_kind
+        end
     | _ => Err e_kind
     end.
 
@@ -112,6 +138,28 @@ Section Dispatch.
                s [])
         else Err e_kind
     | TOther => Err e_kind
+    | TNamed u =>
+        (* the exact-type tests ([]string, map[string][]string, map[string]struct{}) fail for a
+           named type: a named slice goes through the element loop, a named map through parse.Map *)
+        match u with
+        | TSlice e =>
+            l <- string_slice isp s ;;
+            omap VList
+              (map_out (fun x => v <- parse_string_gen e (tok e x) ;;
+                                 if fixed_elem || scalar_kind e then Ok v else Panic p_elem_panic) l)
+        | TMap k v =>
+            if scalar_kind k && scalar_kind v then
+              omap VMap
+                (split_map isp fixed
+                   (fun m ks vs =>
+                      kc <- parse_scalar k (tok k ks) ;;
+                      if existsb (fun kv => scalar_eqb kc (fst kv)) m then Err e_dup
+                      else vc <- parse_scalar v (tok v vs) ;; Ok (m ++ [(kc, vc)]))
+                   s [])
+            else Err e_kind
+        | TMss | TSet | TOther | TNamed _ => Err e_kind    (* value kinds slice / struct are not supported by parse.Map *)
+        | _ => parse_scalar t s
+        end
     end.
 End Dispatch.
 
